@@ -60,6 +60,7 @@ type Config struct {
 	ConcCap      int             // max values when concretising a symbolic integer
 	OpenFindings map[string]bool // known-finding ids that are open
 	Trace        bool
+	Thorough     bool
 }
 
 // Machine is one worker: term context, solver, globals and per-path state.
@@ -684,6 +685,8 @@ func ConcreteDraws(draws []Draw, model Model) []map[string]interface{} {
 			v := Eval(t, model)
 			if d.Kind == "int" {
 				e["v"] = sext64(v, t.W)
+			} else if d.Kind == "u64" {
+				e["v"] = fmt.Sprintf("%d", v)
 			} else {
 				e["v"] = v
 			}
